@@ -329,7 +329,8 @@ namespace detail {
         int last_sc = 0;
         // construction is a plain (non-atomic) write by the constructing fiber: every later access must happen after it
         int init_f = -1; uint32_t init_c = 0;
-        atomic_meta() { if (::vrt::rt().active && ::vrt::rt().cur) { init_f = ::vrt::me().id; init_c = ::vrt::me().clock.c[init_f]; } }
+        // (objects with static storage duration are exempt: the language synchronises their initialisation with every later use)
+        atomic_meta() { if (::vrt::rt().active && ::vrt::rt().cur && !::vrt::in_static_storage(this)) { init_f = ::vrt::me().id; init_c = ::vrt::me().clock.c[init_f]; } }
         ~atomic_meta() { delete hist; delete seen; }
     };
 }
